@@ -38,6 +38,7 @@ def run(ctx):
     tables(ctx, I)
     group_action(ctx, I)
     index_formula(ctx)
+    angles(ctx)
     coverage(ctx, I)
     normalisation(ctx, I)
     batching(ctx)
@@ -49,6 +50,8 @@ RULES = {
     "C14.group-action": "every symmetry operator is a quaternion produced by a rotation constructor and every application goes through quat_product",
     "C14.group-order": "the number of symmetry operators of each lattice system equals the order b of its proper rotation group (Grimmer's table): a shorter or longer list is not the group, so symmetry-equivalent orientations are not identified",
     "C14.index": "misorientation_index == theta_max/(2·nbins)·sum_i |theory(edge_i, edge_{i+1}) - count_i|; histogram range (0, theta_max), density=True, theta_max bins",
+    "C14.angles": "misorientation_angles(q1, q2)[n] == min over variant pairs (i, j) of (360/pi)·arccos(|clip(q1[n,i]·q2[n,j], -1, 1)|) for every pair of variant counts, "
+                  "including a single variant each (the clip is what keeps numerically identical float32 grains from producing NaN)",
     "C14.coverage": "per lattice system the union of the branch intervals of misorientations_random equals [0, theta_max] exactly",
     "C14.normalisation": "per lattice system the theoretical density, as evaluated by the index on 1-degree bins over [0, theta_max], sums to 1 within 1e-3 "
                          "(constant folding of the closed-form branch expressions; same table-agreement argument as coverage)",
@@ -221,6 +224,52 @@ def index_formula(ctx):
             and int(rec.get("bins", -1)) == THETA_MAX[name]
         ctx.ob("C14.index", f"misorientation_hist:{name}:histogram(range=(0, theta_max), density=True, 1-degree bins)", ok, f"histogram kwargs {rec}", hloc)
     ctx.floor("C14.index", 8)
+
+
+def angles(ctx):
+    """geometry.misorientation_angles interpreted on symbolic quaternion stacks for several (A, B) variant counts."""
+    from ..values import symarr
+    dotted = "pydrex.geometry.misorientation_angles"
+    loc = defloc(ctx, dotted)
+    for A, B in ((1, 1), (2, 1), (1, 2), (2, 3)):
+        I = Interp(ctx.program)
+        N = 2
+        q1, q2 = symarr("q1", (N, A, 4)), symarr("q2", (N, B, 4))
+        tag = f"variants ({A},{B})"
+        try:
+            out = I.call(public(ctx, I, dotted), (q1.copy(), q2.copy()))
+        except RaiseSig as r:
+            ctx.ob("C14.angles", tag, False, f"raises {r.exc.typename} on generic input", loc)
+            continue
+        if not (isinstance(out, np.ndarray) and out.shape == (N,)):
+            ctx.ob("C14.angles", tag, False, f"returned {getattr(out, 'shape', out)!r}, expected one angle per row", loc)
+            continue
+        for n in range(N):
+            cands = []
+            for i in range(A):
+                for j in range(B):
+                    dot = sum((lift(q1[n, i, k]) * lift(q2[n, j, k]) for k in range(4)), ZERO)
+                    cands.append(360 * alg.Arccos(alg.Abs(alg.Fn("clip", dot, lift(-1), lift(1)))) / alg.PI)
+            got = lift(out[n])
+            # the minimum is over an unordered set of candidates: compare as sets when both sides are min(...)
+            got_set = None
+            if got.is_monomial():
+                ((m_, c_),) = got.t.items()
+                if c_ == 1 and len(m_) == 1 and m_[0][1] == 1 and m_[0][0].kind == "fn:min" and isinstance(m_[0][0].args[0], tuple):
+                    got_set = {lift(t_) for t_ in m_[0][0].args[0]}
+            if len(cands) > 1 and got_set is not None and got_set == set(cands):
+                ctx.ob("C14.angles", f"{tag}: row {n}", True, "", loc)
+            else:
+                ref = cands[0] if len(cands) == 1 else alg.Fn("min", tuple(cands))
+                ident(ctx, "C14.angles", f"{tag}: row {n}", got, ref, loc)
+    ctx.floor("C14.angles", 8)
+    # mismatched stacks are rejected
+    I = Interp(ctx.program)
+    try:
+        I.call(public(ctx, I, dotted), (symarr("q1", (2, 1, 4)), symarr("q2", (3, 1, 4))))
+        ctx.ob("C14.angles", "stacks of different length are rejected", False, "accepted", loc)
+    except RaiseSig as r:
+        ctx.ob("C14.angles", "stacks of different length are rejected", r.exc.typename == "ValueError", f"raises {r.exc.typename}", loc)
 
 
 def quats_single(I_, *a, **k):
